@@ -94,7 +94,7 @@ func c10b(b bool) *bool { return &b }
 
 // one client operation handed to the client goroutine
 type c10Op struct {
-	kind    string // "R", "W", "X"
+	kind    string // "R", "W", "X", "CI" (close own stdin), "B" (wait to be aborted)
 	wkind   string
 	name    string
 	fail    bool
@@ -197,6 +197,7 @@ func c10RunWith(script string, hist [][]any, slowCb bool, osc *c10OSClient) c10R
 			}
 			return nil
 		}
+		inClosed, fatalWritten := false, false
 		for {
 			var op *c10Op
 			var ok bool
@@ -219,17 +220,46 @@ func c10RunWith(script string, hist [][]any, slowCb bool, osc *c10OSClient) c10R
 				if r == "aborted" || op.wkind == "trunc" {
 					return exit(false)
 				}
+				if op.wkind == "garbage" || op.wkind == "oversize" || op.name == "zz" {
+					fatalWritten = true // the reader has taken something it must reject, whatever the interleaving
+				}
+			case "CI":
+				close(op.started)
+				if inClosed {
+					continue
+				}
+				log.put(c10Event{E: "CloseInCall"})
+				_ = in.Close()
+				inClosed = true
+				log.put(c10Event{E: "CloseInRet"})
+			case "B":
+				close(op.started)
+				if !fatalWritten {
+					continue // in this execution nothing fatal has been written: there is nothing to wait for
+				}
+				log.put(c10Event{E: "WaitAbortCall"})
+				r := "aborted"
+				select {
+				case <-ctx.Done():
+				case <-time.After(3 * time.Second):
+					r = "timeout"
+				}
+				log.put(c10Event{E: "WaitAbortRet", R: r})
+				if r == "aborted" {
+					return exit(false)
+				}
 			case "X":
 				close(op.started)
 				return exit(op.fail)
 			}
 		}
 		// schedule exhausted: behave like a conformant client - consume stdin until it ends, exit
-		for {
+		for !inClosed {
 			if doRead() == "eof" {
 				return exit(false)
 			}
 		}
+		return exit(false)
 	}
 
 	ctx, cancel := context.WithCancel(context.Background())
@@ -317,7 +347,7 @@ func c10RunWith(script string, hist [][]any, slowCb bool, osc *c10OSClient) c10R
 			if !waitStarted(cmd.started, fmt.Sprintf("send #%d of %s", sent[s], s)) {
 				hung = true
 			}
-		case "R", "W", "X":
+		case "R", "W", "X", "CI", "B":
 			if !clientOpen {
 				continue
 			}
